@@ -2,7 +2,7 @@
 From Coq Require Import ZArith List Bool String.
 From CP Require Import Lemmas.EnumTables.
 From CPGen Require Import Tables.
-Open Scope string_scope.
+Local Open Scope string_scope.
 Open Scope Z_scope.
 
 (* every length-prefixed ArrayBase subclass: supported prefix width, 0 <= min <= max, the ceiling fits the prefix,
